@@ -679,6 +679,38 @@ def unique_key_rule(chk, prog):
         chk.broke("no function maintaining the data block cache tag (current_block) found")
         return
     n = 0
+
+    def nonsparse_guard(f, bb):
+        for (cond, outcome, br) in f.guards_at(bb):
+            if not (cond.is_inst and cond.op == "icmp" and cond.ops[1].is_const and cond.ops[1].is_int and cond.ops[1].sval == 0):
+                continue
+            a = cond.ops[0]
+            while a.is_inst and a.op in ("zext", "sext", "trunc"):
+                a = a.ops[0]
+            if a.is_inst and a.op == "and" and any(o.is_const and o.is_int and o.uval == 0xFFFFFF for o in a.ops):
+                if (cond.pred == "ne") == (outcome is True):
+                    return True
+        return False
+    # look-ups of the tag outside the functions that maintain it: the comparison itself sits under the test
+    for f in prog.functions():
+        if f.decl or f.unit.src != "lib/sqfs/src/data_reader.c" or f in fills:
+            continue
+        f.build()
+        for i in f.insts():
+            if i.op != "icmp" or i.pred not in ("eq", "ne"):
+                continue
+            if not any(x.is_inst and x.op == "load" and field_of_ptr(x.ops[0], "struct.sqfs_data_reader_t") == "current_block"
+                       for o in i.ops for x in [o] + list(backward_slice(o, phi_control=False, limit=10))):
+                continue
+            n += 1
+            chk.analysed(f)
+            inst = "%s:lookup@%d" % (f.name, i.line)
+            if nonsparse_guard(f, i.bb):
+                chk.ok("K9-key", inst, i, "the tag is compared only for blocks with a non-zero on-disk size")
+            else:
+                chk.violation("K9-key", inst, i, "the location-keyed block cache is looked up for a block that may be sparse: a hole "
+                              "has the location of the data block behind it, so it is answered with that block's bytes when the "
+                              "block happens to be cached")
     for g in fills:
         for c in prog.callers_of(g):
             f = c.bb.fn
